@@ -20,6 +20,7 @@ jobs = int(args[args.index('--jobs') + 1]) if '--jobs' in args else 4
 tier = args[args.index('--tier') + 1] if '--tier' in args else 'quick'
 only = args[args.index('--only') + 1].split(',') if '--only' in args else None
 BENIGN = '--benign' in args
+TARGETS = args[args.index('--targets') + 1].split(',') if '--targets' in args else None   # only runs of these checks (own and cross together)
 CROSS = '--cross' in args          # with --benign: run every OTHER check that exercises a file the patch touches
 KIND = 'benign' if BENIGN else 'seeded'
 # which checks exercise which source files (prefix match on the path in the diff)
@@ -84,6 +85,8 @@ def main():
     bad = 0
     work = [(s_, p_) for s_ in seeds for p_ in related(s_)] if CROSS else \
         [(s_, p_) for s_ in seeds for p_ in ([s_.split('-')[0]] if s_[0] == 'C' else related(s_))]
+    if TARGETS:
+        work = sorted({(s_, p_) for s_ in seeds for p_ in set(related(s_)) | ({s_.split('-')[0]} if s_[0] == 'C' else set()) if p_ in TARGETS})
     with concurrent.futures.ThreadPoolExecutor(jobs) as ex:
         for (seed, prop), out in ex.map(one, work):
             meta = json.load(open(os.path.join(ROOT, KIND, seed, 'meta.json')))
